@@ -19,6 +19,7 @@ type Clause struct {
 	KF    string // known-finding id: the clause is expected to FAIL (`ensures [label] known-finding F1 expr`)
 	Props []string
 	Line  int
+	Thorough bool // only checked in the thorough tier (expensive obligations)
 }
 
 type LoopSpec struct {
@@ -299,6 +300,10 @@ func parseClause(text string, line int) (Clause, error) {
 	if m := labelRe.FindStringSubmatch(t); m != nil {
 		c.Label = m[1]
 		t = t[len(m[0]):]
+	}
+	if strings.HasPrefix(t, "@thorough") {
+		c.Thorough = true
+		t = strings.TrimSpace(t[len("@thorough"):])
 	}
 	if m := propsRe.FindStringSubmatch(t); m != nil {
 		c.Props = strings.Fields(strings.ReplaceAll(m[1], ",", " "))
